@@ -68,6 +68,12 @@ def gen_case(rng):
     for a in range(n_act):
         nthreads = 2 if rng.random() < 0.2 else 1
         actors.append([gen_script(rng, rng.randint(1, 4 if n_act <= 4 else 2), focus) for _ in range(nthreads)])
+    if rng.random() < 0.25:
+        # steady state: an established cache, fresh processes that only call -- every prefilled key must be a hit
+        actors = [[[[rng.choice(["call", "call", "shelve"]), rng.choice(FUNCS), rng.choice([1, 2])] for _ in range(rng.randint(1, 3))]]
+                  for _ in range(rng.choice([2, 3, 4, 6]))]
+        return {"actors": actors, "prefill": True, "sched_seed": rng.randrange(1 << 31),
+                "strategy": rng.choice(["random", "sticky", "targeted", "targeted"]), "kills": 0, "compress": rng.random() < 0.15}
     case = {"actors": actors, "prefill": rng.random() < (0.1 if focus else 0.5), "sched_seed": rng.randrange(1 << 31),
             "strategy": rng.choice(["random", "sticky", "sticky", "pct", "targeted", "targeted"]),
             "kills": rng.choice([0, 0, 0, 1, 2]), "compress": rng.random() < 0.15}
@@ -82,12 +88,15 @@ def plan(tier, seed):
 # -----------------------------------------------------------------------------
 # actor side
 
-def _do_ops(aid, tid, script, mem, cached, cachedcb):
+def _do_ops(aid, tid, script, mem, cached, cachedcb, vmod_calls=()):
     out = []
     for op in script:
         try:
             if op[0] == "call":
-                out.append((op, "value", cached[op[1]](op[2])))
+                n0 = len(vmod_calls)
+                v = cached[op[1]](op[2])
+                out.append((op, "value", v))
+                out.append((op, "executed", len(vmod_calls) - n0))
             elif op[0] == "callcb":
                 out.append((op, "value", cachedcb[op[1]](op[2])))
             elif op[0] == "shelve":
@@ -141,11 +150,11 @@ def actor_main(root, aid, scripts, to_ctl, from_ctl, seed, compress):
             parked.set()
             if os.read(from_ctl[tid], 1) != b"g":
                 os._exit(98)
-            res = _do_ops(aid, tid, scripts[tid], mem, cached, cachedcb)
+            res = _do_ops(aid, tid, scripts[tid], mem, cached, cachedcb, vmod.CALLS)
             simfs.send_msg(to_ctl, (aid, tid, "TDONE", res, None))
         t = threading.Thread(target=body); t.start(); ths.append(t)
         parked.wait()
-    res = _do_ops(aid, 0, scripts[0], mem, cached, cachedcb)
+    res = _do_ops(aid, 0, scripts[0], mem, cached, cachedcb, vmod.CALLS)
     simfs.send_msg(to_ctl, (aid, 0, "TDONE", res, None))
     for t in ths:
         t.join()
@@ -191,6 +200,12 @@ def run_case(case):
                     c = mem.cache(getattr(vmod, n))
                     for x in (1, 2):
                         c(x)
+                # deterministic access times (the kernel's are coarse real time): oldest first in path order
+                k_ = 0
+                for dp, dn, fns in sorted(os.walk(os.path.join(root, "cache"))):
+                    if "output.pkl" in fns:
+                        k_ += 1
+                        os.utime(os.path.join(dp, "output.pkl"), (1.5e9 + k_, 1.5e9 + k_))
                 return True
             from sim.harness import fork_run
             k, r = fork_run(pre, 60)
@@ -364,6 +379,8 @@ def run_case(case):
         # ---- oracle
         verdict = None
         maint = []
+        has_cb = any(op[0] == "callcb" for scs in case["actors"] for sc in scs for op in sc)
+        n_threads_of = {a_: len(scs) for a_, scs in enumerate(case["actors"])}
         evictors = any(op[0] in ("reduce", "clear", "fclear") for scs in case["actors"] for sc in scs for op in sc)
         for (aid, tid), e in sorted(ents.items()):
             if e["out"] in ("KILLED",):
@@ -383,6 +400,13 @@ def run_case(case):
                         # observations
                         verdict = {"class": "reduce_size_raises", "detail": "actor %d: %s raised %s: %s at %s" % (aid, op, val[0], val[1], val[2]),
                                    "sig": {"what": "reduce_size_raises", "exc": val[0]}}
+                if tag == "executed":
+                    if (case["prefill"] and not evictors and not has_cb and not killed and op[2] in (1, 2) and val != 0
+                            and n_threads_of[aid] == 1 and verdict is None):
+                        verdict = {"class": "recomputed_although_cached", "detail": "actor %d: %s executed the function %d time(s) although the "
+                                   "entry was computed before the run and nobody evicts, clears or expires in this run" % (aid, op, val),
+                                   "sig": {"what": "recomputed_although_cached"}}
+                    continue
                 if op[0] in ("call", "callcb", "shelve"):
                     if tag == "exception":
                         where = val[2][-1][2] if val[2] else None
